@@ -7,7 +7,7 @@
 import JoinModel.Spec
 namespace JoinModel
 
-inductive OpMode | init | map | andThen | then_ | inspect | orElse | mapErr
+inductive OpMode | init | map | andThen | then_ | inspect | orElse | mapErr | or_
   deriving DecidableEq, Repr, Inhabited
 
 /-- what the instrumented function does when it is called -/
@@ -70,6 +70,12 @@ def applyOp (op : COp) (cur : Value) : List Nat × UR Value :=
     match cur with
     | .fail e => ([op.cb], run (atomOf e) true)
     | v => ([], .ok v)
+  | .or_ =>
+    -- `.or(value)`: the operand is a value, evaluated whenever the operator is reached
+    ([op.cb], match op.out with
+      | .panic n => .panic n
+      | .ok c => .ok (match cur with | .succ v => .succ v | _ => .succ (.atom c))
+      | .fail c => .ok (match cur with | .succ v => .succ v | _ => .fail (.atom c)))
   | .mapErr =>
     match cur with
     | .fail e => ([op.cb], match op.out with
@@ -162,7 +168,7 @@ def parseOutcome (s : String) : Option Outcome :=
 
 def parseMode : String → Option OpMode
   | "init" => some .init | "map" => some .map | "andThen" => some .andThen | "then" => some .then_
-  | "inspect" => some .inspect | "orElse" => some .orElse | "mapErr" => some .mapErr | _ => none
+  | "inspect" => some .inspect | "orElse" => some .orElse | "mapErr" => some .mapErr | "or" => some .or_ | _ => none
 
 /-- `mode:cb:outcome[:gate]` -/
 def parseCOp (s : String) : Option COp :=
